@@ -47,8 +47,25 @@ def canon_groups(labels):
 
 
 def handler(case):
-    ps = net.build(case["spec"])
-    ps.create_sections()
+    if case.get("run_between"):
+        # the network is prepared by a real run (prepare_system inside run_sequential), the run islands parts of it (load flows from
+        # other reference buses), and afterwards - all components repaired, reset - it is prepared again, as a second run would do
+        import contextlib, io
+        from relsad.simulation import Simulation
+        from relsad.simulation.system_config import reset_system
+        from relsad.Time import Time, TimeStamp, TimeUnit
+        from . import acct
+        rb = case["run_between"]
+        ps = net.build(dict(case["spec"], exact=False, nprof=rb["n_inc"]))
+        sim = Simulation(ps, random_seed=1)
+        with contextlib.redirect_stdout(io.StringIO()):
+            sim.run_sequential(start_time=TimeStamp(), stop_time=TimeStamp(hour=rb["n_inc"]), time_step=Time(1, TimeUnit.HOUR), time_unit=TimeUnit.HOUR,
+                               callback=acct.make_callback(rb["faults"], F(1)), save_dir=acct.tmpdir("c20_run"), save_flag=False)
+        reset_system(ps, False)
+        ps.create_sections()
+    else:
+        ps = net.build(case["spec"])
+        ps.create_sections()
     if case.get("extend"):
         # the network is extended after it has been prepared once (more laterals, with or without switches) and prepared again:
         # the second preparation has to section the network as it is now
@@ -118,6 +135,8 @@ def handler(case):
         return ({l.name: l.connected for l in ps.lines}, {s.name: s.is_open for s in ps.disconnectors + ps.circuitbreakers})
     s0 = state()
     automatic = type(ps.controller).__name__ == "MainController"
+    if case.get("run_between"):
+        return dict(ops=ops, impl=impl, viols=viols[:3], nontrivial=tuple(sorted(sig)) + ("after-run",), tag="sections-after-run")
     # the same on the switching model (C20.section_out_takes_lines_out / disconnect_reconnect_restores are about these functions):
     # full state after Section.disconnect and after putting the section back, manual control
     v = None
@@ -211,6 +230,15 @@ def gen(rng, n, exhaustive_upto):
             for k in range(rng.choice([1, 2, 3])):
                 ext.append({"at": rng.choice(list(range(nb0)) + [f"F0X{q}" for q in range(k)]), "sw": rng.choice([0, 1, 2, 3, 1])})
             cases[-1]["extend"] = ext
+        elif len(cases) % 4 == 2 and spec["ctrl"]["type"] == "manual":
+            # prepared and used by a real run with faults (parts are islanded; with a microgrid / production, solved from another
+            # reference bus), then prepared again
+            ps_ = net.build(dict(spec, exact=False))
+            names = [l.name for l in ps_.lines if not l.is_backup]
+            faults = {}
+            for _k in range(rng.randint(1, 3)):
+                faults.setdefault(str(rng.randint(1, 6)), []).append(["line", rng.choice(names), str(rng.choice([F(1), F(2), F(3)]))])
+            cases[-1]["run_between"] = {"n_inc": 12, "faults": faults}
     return cases
 
 
